@@ -97,6 +97,9 @@ def run(chk):
     chk.ob("exact-propagator", "EX block Hamiltonian = omega_0 b^dagger b + term10 (b^dagger + b)", okh, ep.where, hm, "phop[b^dagger b]*omega[0] + phop[b^dagger + b]*term10", line=ep.node.lineno)
     gsd = [unparse(s.value).replace(" ", "").replace("\n", "") for s in ast.walk(ep.node) if isinstance(s, ast.Assign) and unparse(s.targets[0]) == "d"]
     chk.ob("exact-propagator", "GS block: exp(x omega_0 n)", gsd == [f"np.exp({xs}*ph.omega[0]*np.arange(ph_pbond))"], ep.where, gsd, f"np.exp({xs} * ph.omega[0] * np.arange(ph_pbond))", line=ep.node.lineno)
+    # ---- the displaced-oscillator coupling used by the EX block is the model's (shared rule with C16)
+    from . import C16
+    C16.holstein_rule(chk, src)
     # ---- thermal siblings
     te = src.func(THERMAL, "ThermalProp.evolve_exact")
     tp = src.func(THERMAL, "ThermalProp.evolve_prop")
@@ -139,6 +142,45 @@ def run(chk):
             real_decay = sp.im(exk) == 0
             chk.ob("solver-sibling", f"{qual} pair#{k} [imaginary time]", sp.simplify(exk - exi) == 0 and real_decay, fi.where, {"krylov": str(exk), "ODE": str(exi)}, "equal, real exponents", line=kc.lineno,
                    detail=f"{qual}: in imaginary time the two local solvers integrate different exponents")
+    # ---- re-entrant evolution keeps the time mode
+    chk.rule("imag-reentry", "an evolver that converts an imaginary step to a real number passes an imaginary step again when it re-enters evolve()", 1)
+    n_re = 0
+    for (rel, qual), fi in sorted(src.funcs.items()):
+        if rel != MPS or fi.parent is not None or not fi.name.startswith("_evolve_"):
+            continue
+        dtname = fi.params()[2] if len(fi.params()) > 2 else None
+        rebinds = [n for n in ast.walk(fi.node) if isinstance(n, ast.Assign) and isinstance(n.targets[0], ast.Name) and n.targets[0].id == dtname and ".imag" in unparse(n.value)]
+        if not rebinds:
+            continue
+        calls = [c for c in ast.walk(fi.node) if isinstance(c, ast.Call) and unparse(c.func) in ("self.evolve",) and len(c.args) >= 2 and c.lineno > rebinds[0].lineno]
+        for c in calls:
+            n_re += 1
+            tau = sp.Symbol("tau", positive=True)
+            t = sp.Symbol("t", positive=True)
+
+            def ev(e, imag):
+                if isinstance(e, ast.IfExp):
+                    tt = unparse(e.test).replace(" ", "")
+                    if tt == "imag_time":
+                        return ev(e.body if imag else e.orelse, imag)
+                    if tt == "notimag_time":
+                        return ev(e.orelse if imag else e.body, imag)
+                    raise AnalysisError(f"{fi.where}: condition {tt} in a re-entrant step")
+                if isinstance(e, ast.BinOp):
+                    a, b_ = ev(e.left, imag), ev(e.right, imag)
+                    return {ast.Add: lambda: a + b_, ast.Sub: lambda: a - b_, ast.Mult: lambda: a * b_, ast.Div: lambda: a / b_}[type(e.op)]()
+                if isinstance(e, ast.UnaryOp) and isinstance(e.op, ast.USub):
+                    return -ev(e.operand, imag)
+                return C09.scalar_sym(e, {dtname: tau if imag else t})
+            vi = sp.simplify(ev(c.args[1], True))
+            vr = sp.simplify(ev(c.args[1], False))
+            ok = sp.re(vi) == 0 and sp.im(vi).is_negative and sp.im(vr) == 0
+            chk.ob("imag-reentry", f"{qual}: {norm_stmt(c, 70)}", bool(ok), fi.where, {"imaginary-time mode passes": str(vi), "real-time mode passes": str(vr)},
+                   "imaginary mode: -i * (positive) ; real mode: real", line=c.lineno,
+                   detail=f"{qual} has replaced its imaginary step by the real number tau and re-enters evolve() with it: the inner evolution runs in real time "
+                          f"(for CMF: the mean field at t/2 is wrong and the scheme loses an order)")
+    if n_re == 0:
+        raise AnalysisError("no re-entrant evolve() call after an imaginary-step conversion found (anchor moved)")
     # ---- normalisation in evolve
     for rel, qual, cond in ((MPS, "Mps.evolve", "np.iscomplex(evolve_dt)"), (TREE, "TTNS.evolve", "imag_time")):
         fi = src.func(rel, qual)
